@@ -619,7 +619,8 @@ func c01Methods(thorough bool) []c01Method {
 		if strings.HasSuffix(key, "/") {
 			return nil
 		}
-		sr := c01SendBody(e.gws[gi%2], "PUT", gw.ObjPath(c01Bucket, key), "", H("x-amz-meta-first", "1"), body, "signed", nil, nil)
+		// the first upload carries every content header: REPLACE stores exactly the set of the copy request
+		sr := c01SendBody(e.gws[gi%2], "PUT", gw.ObjPath(c01Bucket, key), "", H("x-amz-meta-first", "1", "Content-Type", "application/first", "Content-Encoding", "gzip", "Cache-Control", "max-age=31536000", "Content-Disposition", "attachment; filename=\"first.bin\"", "Content-Language", "de", "Expires", "Thu, 01 Dec 2030 16:00:00 GMT"), body, "signed", nil, nil)
 		if !sr.OK() {
 			return sr
 		}
@@ -1109,6 +1110,11 @@ func C01(r *ck.Run) {
 					if !resp.OK() {
 						r.Outcome("not-acknowledged:" + m.Class + ":" + fmtResp(resp))
 						r.Add("not_acknowledged", 1)
+						// refusing a valid upload is not a read-back violation, but an upload of this grammar that is answered
+						// "no such key / upload" or with a server error was lost on the way: that is reported
+						if resp.Err != nil || resp.Status == 404 || resp.Status >= 500 {
+							report(c, "upload", []string{"valid upload answered " + fmtResp(resp)}, det)
+						}
 						if os.Getenv("VERIF_C01_DEBUG") != "" {
 							lf, _ := os.OpenFile(os.Getenv("VERIF_C01_DEBUG"), os.O_APPEND|os.O_CREATE|os.O_WRONLY, 0o644)
 							defer lf.Close()
